@@ -493,3 +493,61 @@ def exch(ctx, pid):
             ctx.bad("exception-class:_PartialTraversal", "trie/hexary.py", "_PartialTraversal is not a direct Exception subclass")
         else:
             ctx.ok("exception-class:_PartialTraversal", "trie/hexary.py", "_PartialTraversal(Exception)", nontrivial=False)
+
+
+# exception names whose class is deliberately not trie.exceptions' (module, name) -> (origin, reason)
+EXC_FOREIGN = {
+    ("trie.fog", "ValidationError"): ("eth_utils.ValidationError", "the fog API refuses with eth_utils' ValidationError; tests/core/test_fog.py pins that class"),
+}
+
+
+@rule("EXCORIGIN", ["C01", "C03", "C07", "C08", "C10", "C11", "C12", "C13", "C14", "C15", "C16", "C18"])
+def excorigin(ctx, pid):
+    """Which class a raised / caught exception *name* denotes: a builtin, a class of the module itself, or an
+    import from trie.exceptions.  `ValidationError` imported from another package is an unrelated class that
+    no `except trie.exceptions.ValidationError` of a caller catches (fog.py's eth_utils import is the one
+    frozen exception)."""
+    import builtins
+    from ..core import prop_scope
+    scope = prop_scope(pid)
+    n = 0
+    bad = []
+    for name, m in sorted(ctx.P.modules.items()):
+        if m.is_tools or (scope is not None and m.rel not in scope):
+            continue
+        used = {}
+        for nd in ast.walk(m.tree):
+            if isinstance(nd, ast.Raise) and nd.exc is not None:
+                e = nd.exc.func if isinstance(nd.exc, ast.Call) else nd.exc
+                if isinstance(e, ast.Name):
+                    used.setdefault(e.id, nd)
+            if isinstance(nd, ast.ExceptHandler) and nd.type is not None:
+                for x in ast.walk(nd.type):
+                    if isinstance(x, ast.Name):
+                        used.setdefault(x.id, nd)
+        for u, nd in sorted(used.items()):
+            imp = m.imports.get(u)
+            if imp is None:
+                if u in m.classes:
+                    n += 1
+                    continue
+                if u in m.const_nodes or u in m.funcs:
+                    bad.append((m, nd, u, "a module-level name that is not a class"))
+                    continue
+                if isinstance(getattr(builtins, u, None), type) and issubclass(getattr(builtins, u), BaseException):
+                    n += 1
+                    continue
+                continue  # a local variable holding an exception (`raise exc`): not a class name
+            n += 1
+            if imp[0] == "pkg" and imp[1] == "trie.exceptions":
+                continue
+            origin = imp[1] if imp[0] == "ext" else "%s.%s" % (imp[1], imp[2] if len(imp) > 2 else "")
+            fz = EXC_FOREIGN.get((name, u))
+            if fz is not None and fz[0] == origin:
+                continue
+            bad.append((m, nd, u, "imported from %s" % origin))
+    for m, nd, u, why in bad:
+        ctx.bad("exception-origin:%s:%s" % (m.name, u), "%s:%d" % (m.rel, nd.lineno),
+                "`%s` in %s is %s, not the class of trie.exceptions: callers catching trie.exceptions.%s no longer see these refusals" % (u, m.rel, why, u))
+    if not bad:
+        ctx.ok("exception-origins", "trie/", "%d exception names raised or caught in scope denote builtins, local classes or trie.exceptions classes (1 frozen exception: fog.ValidationError)" % n, nontrivial=bool(n))
